@@ -217,6 +217,7 @@ class Recorder:
         self.couplings = []
         self.ligands = []
         self.pipes = []
+        self.pipe_cap = 250
         self.pipes_skipped = 0
         self.pre = {}
 
@@ -234,6 +235,8 @@ class Recorder:
             # read_molecule_file calls this right after top_up_conformations: the atoms as the set-up pipeline receives them
             for n in names:
                 c = conformations[n]
+                if len(rec.pipes) >= rec.pipe_cap:
+                    continue        # enough conformations recorded for the pipeline comparison of this check
                 try:
                     rec.pre[id(c)] = (c, PC.pre_request(c))
                 except OutOfModel as e:
@@ -272,7 +275,9 @@ class Recorder:
                     if PC.prep_fingerprint(conf.parameters) != PC.shipped_fingerprint():
                         raise OutOfModel("set-up parameters differ from the shipped file")
                     mo = conf.molecular_container.options
-                    pipe = [conf.name, pre[1], rp, "1" if getattr(mo, "protonate_all", False) else "0", PC.to_arg(mo), PC.export_ext(conf)]
+                    if isinstance(req, str):
+                        raise OutOfModel(req)
+                    pipe = [conf.name, pre[1], rp, "1" if getattr(mo, "protonate_all", False) else "0", PC.to_arg(mo), PC.export_ext(conf, req)]
                 except OutOfModel:
                     rec.pipes_skipped += 1
             rec.orig(conf, version, options)
@@ -437,6 +442,7 @@ class tie:
         self.ctx, self.what = ctx, what
         self.limit = limit if limit is not None else (160 if ctx.quick() else 1500)
         self.rec = Recorder()
+        self.rec.pipe_cap = 120 if ctx.quick() else 3000
 
     def __enter__(self):
         self.rec.__enter__()
